@@ -9,7 +9,17 @@ C13 — deterministic execution of cancel-scope programs on the REAL EasyNetwork
     - timers due at the same tick fire in creation order (CPython leaves this order to `heapq`); the external
       `task.cancel()` timer goes first or last among its ties according to the case (`ext_last`).
 * programs: flat list of op lines, nesting by `scope … endscope`, `shield … endshield`, `try … endtry`,
-  `group … child … endchild … endgroup`; statement id = index of its (opening) line.
+  `trye … endtrye`, `group … child … endchild … endgroup`; statement id = index of its (opening) line.
+* operations that can FAIL (real side + oracle only, no Lean counterpart):
+    - `fwait k`   await harness future k directly (inside `shield` the future is what `cancel_shielded_await` receives
+                  as `to_yield`); future k is resolved by a timer at a scripted tick with a result or with `FutError`,
+                  before or after the external cancels of the same tick (case field `futs`: [tick, "ok"|"err", first]);
+                  each future is awaited by at most one statement (a cancelled unshielded await cancels the future)
+    - `fail`      raise `FutError` (a task-group child that fails makes the group cancel its host task: a one-shot
+                  cancellation like an external `task.cancel()`)
+    - `join i`    `await Task(child i of the enclosing group).join()` (fails with the child's error, in the loop turn in
+                  which the group cancels the host)
+    - `trye body` `try: body except FutError: pass`
 * the trace: canonical text lines, virtual ticks only.
 """
 from __future__ import annotations
@@ -98,7 +108,12 @@ class _Running:
 # program text
 # ------------------------------------------------------------------------------------------------
 
-OPEN = {"scope": "endscope", "shield": "endshield", "try": "endtry", "group": "endgroup", "child": "endchild"}
+OPEN = {"scope": "endscope", "shield": "endshield", "try": "endtry", "trye": "endtrye", "group": "endgroup",
+        "child": "endchild"}
+
+
+class FutError(Exception):
+    """the error a harness future / a `fail` statement ends with"""
 
 
 def parse(lines: list[str]) -> list[Any]:
@@ -135,6 +150,8 @@ def _cls(e: BaseException | None) -> str:
         return "cancel"
     if isinstance(e, TimeoutError):
         return "timeout"
+    if isinstance(e, FutError):
+        return "ferr"
     if isinstance(e, BaseExceptionGroup):
         kinds = sorted({_cls(x) for x in e.exceptions})
         return "group[" + ",".join(kinds) + "]"
@@ -147,6 +164,7 @@ class Runner:
         self.backend = backend
         self.out = out
         self.ext_calls = 0
+        self.futs: list[asyncio.Future] = []
 
     def now(self) -> int:
         return self.loop._vnow
@@ -162,23 +180,37 @@ class Runner:
                 n += 1
         return n
 
-    async def block(self, stmts, scopes: list) -> None:
+    async def block(self, stmts, scopes: list, children: list | None = None) -> None:
         for st in stmts:
-            await self.stmt(st, scopes)
+            await self.stmt(st, scopes, children)
 
     def _cc(self, scopes: list) -> str:
         return "".join("1" if s.cancel_called() else "0" for s in reversed(scopes)) or "-"
 
-    async def _blocking(self, sid: int, scopes: list, aw) -> None:
+    async def _blocking(self, sid: int, scopes: list, aw, inner_cancelled=None) -> None:
         self.out.append(f"blk {sid} {self.now()} {self._cc(scopes)}")
         try:
             await aw
         except asyncio.CancelledError:
-            self.out.append(f"exc {sid} {self.now()}")
+            if inner_cancelled is not None and inner_cancelled():
+                # the awaited thing itself ended cancelled (join() of a child the group aborted): not an interruption
+                self.out.append(f"icancel {sid} {self.now()}")
+            else:
+                self.out.append(f"exc {sid} {self.now()}")
+            raise
+        except Exception as e:
+            # the operation's own failure (harness future, join() of a child that failed), not an interruption
+            self.out.append(f"err {sid} {self.now()} {_cls(e)}")
             raise
         self.out.append(f"ret {sid} {self.now()}")
 
-    async def stmt(self, st, scopes: list) -> None:
+    async def _immediate(self, sid: int, fut) -> None:
+        # awaiting something already done does not suspend: not a blocking operation, not a checkpoint
+        bad = (not fut.cancelled()) and fut.exception() is not None
+        self.out.append(f"imm {sid} {self.now()} {'cancel' if fut.cancelled() else 'err' if bad else 'ok'}")
+        await fut
+
+    async def stmt(self, st, scopes: list, children: list | None = None) -> None:
         sid, w, kids = st
         b = self.backend
         op = w[0]
@@ -196,27 +228,49 @@ class Runner:
             scopes[-1 - int(w[1])].reschedule(d)
             self.out.append(f"do {sid} {self.now()}")
         elif op == "scope":
-            await self.scope(sid, w, kids, scopes)
+            await self.scope(sid, w, kids, scopes, children)
         elif op == "shield":
             self.out.append(f"sin {sid} {self.now()}")
             try:
                 # the shielded body runs in the same task; scopes opened outside stay visible to cancel/resched
-                await b.ignore_cancellation(self.block(kids, scopes))
+                await b.ignore_cancellation(self.block(kids, scopes, children))
             except BaseException as e:
                 self.out.append(f"sout {sid} {self.now()} {_cls(e)}")
                 raise
             self.out.append(f"sout {sid} {self.now()} ok")
         elif op == "try":
             try:
-                await self.block(kids, scopes)
+                await self.block(kids, scopes, children)
             except asyncio.CancelledError:
                 self.out.append(f"swallow {sid} {self.now()}")
+        elif op == "trye":
+            try:
+                await self.block(kids, scopes, children)
+            except FutError:
+                self.out.append(f"caught {sid} {self.now()}")
+        elif op == "fwait":
+            fut = self.futs[int(w[1])]
+            if fut.done():
+                await self._immediate(sid, fut)
+            else:
+                await self._blocking(sid, scopes, fut)
+        elif op == "fail":
+            self.out.append(f"raise {sid} {self.now()}")
+            raise FutError()
+        elif op == "join":
+            from easynetwork.lowlevel.api_async.backend._asyncio.tasks import Task
+
+            ct = children[int(w[1])]
+            if ct.done():
+                await self._immediate(sid, ct)
+            else:
+                await self._blocking(sid, scopes, Task(ct).join(), ct.cancelled)
         elif op == "group":
             await self.group(sid, kids, scopes)
         else:
             raise ValueError(f"bad op {w}")
 
-    async def scope(self, sid: int, w: list[str], kids, scopes: list) -> None:
+    async def scope(self, sid: int, w: list[str], kids, scopes: list, children: list | None = None) -> None:
         b = self.backend
         kind, dl, pre = w[1], w[2], w[3] == "1"
         delay = math.inf if dl == "inf" else int(dl)
@@ -233,7 +287,7 @@ class Runner:
             with cm:
                 self.out.append(f"enter {sid} {self.now()} {task.cancelling()}")
                 try:
-                    await self.block(kids, scopes + [scope])
+                    await self.block(kids, scopes + [scope], children)
                 except BaseException as e:
                     reached = _cls(e)
                     raise
@@ -253,10 +307,13 @@ class Runner:
         self.out.append(f"gin {sid} {self.now()}")
         try:
             async with b.create_task_group() as tg:
+                children: list = []      # asyncio tasks of the `child` blocks, in order (for `join i`)
                 for k in kids:
                     if k[1][0] == "child":
+                        before = asyncio.all_tasks(self.loop)
                         tg.start_soon(self.child, k)
-                await self.block([k for k in kids if k[1][0] != "child"], scopes)
+                        children.extend(asyncio.all_tasks(self.loop) - before)
+                await self.block([k for k in kids if k[1][0] != "child"], scopes, children)
         except BaseException as e:
             self.out.append(f"gout {sid} {self.now()} {_cls(e)}")
             raise
@@ -274,7 +331,8 @@ class Runner:
         self.out.append(f"cout {sid} {self.now()} ok {task.cancelling()}")
 
 
-def run_program(lines: list[str], ext: list[int], ext_last: bool = False, max_turns: int = 3000) -> list[str]:
+def run_program(lines: list[str], ext: list[int], ext_last: bool = False, max_turns: int = 3000,
+                futs: list | None = None) -> list[str]:
     from easynetwork.lowlevel.api_async.backend._asyncio.backend import AsyncIOBackend
 
     tree = parse(lines)
@@ -289,6 +347,22 @@ def run_program(lines: list[str], ext: list[int], ext_last: bool = False, max_tu
             def ext_cancel() -> None:
                 out.append(f"ext {loop._vnow} {int(task.done())}")
                 task.cancel()
+
+            def resolve(k: int, how: str) -> None:
+                f = r.futs[k]
+                out.append(f"fut {k} {loop._vnow} {how} {int(not f.done())}")
+                if not f.done():
+                    if how == "err":
+                        f.set_exception(FutError())
+                        f.exception()      # mark retrieved: no "never retrieved" noise if nobody awaits it
+                    else:
+                        f.set_result(None)
+
+            for k, (t, how, first) in enumerate(futs or []):
+                f = loop.create_future()
+                r.futs.append(f)
+                # before (-2) or after (+2) every external cancel of the same tick: same loop turn either way
+                loop.call_at(t, resolve, k, how, _prio=-2 if first else 2)
 
             for t in ext:
                 loop.call_at(t, ext_cancel, _prio=1 if ext_last else -1)
@@ -306,7 +380,7 @@ def run_program(lines: list[str], ext: list[int], ext_last: bool = False, max_tu
                 else:
                     res = _cls(task.exception())
                 # handles still alive that belong to the scope machinery (anything but the external timers)
-                left = [h for h in loop.live_handles() if getattr(h, "_callback", None) is not ext_cancel]
+                left = [h for h in loop.live_handles() if getattr(h, "_callback", None) not in (ext_cancel, resolve)]
                 names = sorted(n for n in (_hname(h) for h in left) if n.startswith("cs."))
                 out.append(f"end {loop._vnow} {res} cancelling={task.cancelling()} left={','.join(names) or '-'}")
             else:
